@@ -21,6 +21,7 @@ import ast
 from ..engine import Analysis, is_call_to, is_suspension, short, where_fn, tested, \
     key_truth, call_receiver
 from ..model import AnalysisError
+from ..paths import CORE_INTERRUPT
 from ..norm import bool_term, equal_bool, complement_bool
 from ..types import Callee, Frame
 from .. import rules
@@ -404,7 +405,11 @@ def _check_connective_subscription(check, an: Analysis):
     # the subscription context itself: subscribe / unsubscribe with the same pair
     sub = an.callee(NOTIFICATION, '__subscription__')
     verdict, n = True, 0
-    for path in an.paths(sub):
+    if sub.fn.kind != 'ctxgen':
+        # a context manager object: what __enter__ subscribed is what every way through
+        # __exit__ unsubscribes, handed over in attributes of the object
+        verdict, n = _manager_pairs(an, sub)
+    for path in an.paths(sub) if sub.fn.kind == 'ctxgen' else ():
         subs = [e for e in path.events if is_call_to(e, '__subscribe__')
                 and e.get('exit') == 'normal']
         unsubs = [e for e in path.events if is_call_to(e, '__unsubscribe__')]
@@ -416,6 +421,50 @@ def _check_connective_subscription(check, an: Analysis):
     check.instance('S', 'Notification.__subscription__:paired', verdict and n > 0,
                    where_fn(sub.fn), 'subscribe(task, wake_up) is undone by '
                    'unsubscribe(task, wake_up) on each of %d paths' % n, analysed=n)
+
+
+def _manager_pairs(an: Analysis, factory: Callee):
+    """(verdict, number of subscribing paths) for a ``__subscription__`` that returns a
+    context manager object"""
+    verdict, n = True, 0
+    managers = [t[1] for t in an.te.ret_type(factory) if t[0] == 'inst'
+                and an.p.find_method(t[1], '__enter__') and an.p.find_method(t[1], '__exit__')]
+    if not managers:
+        return False, 0
+    for qn in managers:
+        enter = Callee(an.p.find_method(qn, '__enter__'), qn)
+        leave = Callee(an.p.find_method(qn, '__exit__'), qn)
+        kept = None
+        for path in an.paths(enter):
+            subs = [(i, e) for i, e in enumerate(path.events)
+                    if e.kind in ('call', 'enter') and isinstance(e.node, ast.Call)
+                    and isinstance(e.node.func, ast.Attribute)
+                    and e.node.func.attr == '__subscribe__' and e.get('exit') == 'normal']
+            if not path.normal:
+                continue
+            if len(subs) != 1:
+                return False, n
+            n += 1
+            index, event = subs[0]
+            held = {}
+            for pos, store in enumerate(path.events):
+                if store.kind == 'store' and (store.get('path') or '').startswith('self.') \
+                        and store.data.get('value') is not None:
+                    held[rules.value_text(path, pos, store.data['value'])] = store['path']
+            args = [held.get(rules.value_text(path, index, a)) for a in event.node.args]
+            if None in args or (kept is not None and kept != args):
+                return False, n
+            kept = args
+        for which in ('none', 'genexit', 'exc:ext:Exception', 'exc:' + CORE_INTERRUPT):
+            for path in an.paths(leave, which):
+                unsubs = [(i, e) for i, e in enumerate(path.events)
+                          if e.kind in ('call', 'enter') and isinstance(e.node, ast.Call)
+                          and isinstance(e.node.func, ast.Attribute)
+                          and e.node.func.attr == '__unsubscribe__']
+                verdict &= len(unsubs) == 1 and [
+                    rules.value_text(path, unsubs[0][0], a)
+                    for a in unsubs[0][1].node.args] == kept
+    return verdict, n
 
 
 def _check_trigger_coverage(check, an: Analysis, classes):
